@@ -30,6 +30,7 @@ var params = refchain.DefaultParams()
 var watchdog = 120 * time.Second
 
 type tmpl struct {
+	pre    *prefix // the prefix this template grows from (nil: the default one)
 	name   string
 	blocks []*reftx.Block
 	names  []string
@@ -43,6 +44,7 @@ type prefix struct {
 	M      [32]byte            // 4-output tx (OP_1,OP_1,OP_1,OP_0) confirmed in the prefix
 	N      [32]byte            // 2-output tx
 	model  *refchain.Model
+	height uint32
 }
 
 const prefixLen = 105
@@ -77,6 +79,7 @@ func buildPrefix() *prefix {
 		prev = b.Hash()
 	}
 	p.tip = prev
+	p.height = prefixLen
 	e.Close()
 	p.model = refchain.New(params, minichain.GenesisHash, minichain.GenesisTime, minichain.PowBits)
 	for _, b := range p.blocks {
@@ -85,6 +88,73 @@ func buildPrefix() *prefix {
 		}
 	}
 	return p
+}
+
+// buildRetargetPrefix: 2014 blocks 150 s apart (plus a funding tx), so that the block
+// at height 2015 decides the next period's difficulty: stamped two weeks after genesis
+// the target stays at the limit, stamped 150 s after its parent it drops to a quarter.
+func buildRetargetPrefix() *prefix {
+	const n = 2014
+	p := &prefix{dir: ev.Scratch("c06-retarget-prefix"), height: n}
+	e := minichain.Open(p.dir, &minichain.Opts{Params: params})
+	p.model = refchain.New(params, minichain.GenesisHash, minichain.GenesisTime, minichain.PowBits)
+	prev := minichain.GenesisHash
+	p.cb = make([]refchain.Outpoint, n+1)
+	for h := uint32(1); h <= n; h++ {
+		s := minichain.Spec{Prev: prev, Height: h, CbValue: -1, Time: minichain.GenesisTime + 150*h}
+		if h == 102 {
+			m := minichain.Spend([]refchain.Outpoint{p.cb[1]}, []reftx.Out{o1(10e8), o1(10e8), o1(10e8), o1(10e8), o1(10e8)})
+			p.M = m.TxID()
+			s.Txs = append(s.Txs, m)
+		}
+		b := minichain.Build(s)
+		if r := e.Deliver(b.Bytes()); r != "ok" {
+			ev.HarnessError("retarget prefix block %d: %s", h, r)
+		}
+		if nd := p.model.Add(b); nd == nil || !p.model.Valid(nd) {
+			ev.HarnessError("reference model refuses retarget prefix block %d", h)
+		}
+		p.cb[h] = op(b.Txs[0].TxID(), 0)
+		p.blocks = append(p.blocks, b)
+		prev = b.Hash()
+	}
+	p.tip = prev
+	e.Close()
+	return p
+}
+
+// retargetTemplate: branch A keeps the difficulty (5 blocks of work 1 each), branch B
+// quadruples it (work 1, 4, 4): B is shorter but heavier from its third block on, and
+// B2016 ties with A2019.
+func retargetTemplate(p *prefix) *tmpl {
+	t := &tmpl{pre: p, name: "shorter-but-heavier-across-retarget"}
+	m := p.model.Clone()
+	add := func(name string, parent *refchain.Node, tm uint32, tag byte, txs ...*reftx.Tx) *refchain.Node {
+		b := minichain.Build(minichain.Spec{Prev: parent.Hash, Height: parent.Height + 1, Time: tm, Tag: tag, Txs: txs, CbValue: -1,
+			Bits: refchain.RequiredBits(parent, minichain.PowBits)})
+		nd := m.Add(b)
+		if nd == nil || m.CheckBlock(parent, b, minichain.PowBits, 1<<40) != "" {
+			ev.HarnessError("retarget template: block %s is not valid: %s", name, m.CheckBlock(parent, b, minichain.PowBits, 1<<40))
+		}
+		t.blocks = append(t.blocks, b)
+		t.names = append(t.names, name)
+		return nd
+	}
+	tip := m.Nodes[p.tip]
+	sp := minichain.Spend
+	// branch A: block 2015 two weeks after genesis -> next period stays at the limit
+	a := add("A2015", tip, minichain.GenesisTime+14*24*3600, 1, sp([]refchain.Outpoint{op(p.M, 0)}, []reftx.Out{o1(10e8)}))
+	for i := 0; i < 3; i++ {
+		a = add(fmt.Sprint("A", 2016+i), a, a.Time+600, 1)
+	}
+	// branch B: block 2015 right after its parent -> next period is four times harder
+	b := add("B2015", tip, tip.Time+150, 2, sp([]refchain.Outpoint{op(p.M, 0), op(p.M, 1)}, []reftx.Out{o1(20e8)}))
+	b = add("B2016", b, b.Time+150, 2)
+	b = add("B2017", b, b.Time+150, 2, sp([]refchain.Outpoint{op(p.M, 2)}, []reftx.Out{o1(10e8)}))
+	if refchain.Work(b.Bits).Cmp(refchain.Work(a.Bits)) <= 0 {
+		ev.HarnessError("retarget template: branch B is not harder than branch A (bits %x vs %x)", b.Bits, a.Bits)
+	}
+	return t
 }
 
 type bspec struct {
@@ -233,6 +303,9 @@ type outcome struct {
 // runHistory executes one history on a fresh copy of the prefix directory.
 // events: block index >= 0, -1 = Idle, -2 = close+reopen.
 func runHistory(p *prefix, t *tmpl, events []int, states map[string]bool, mu *sync.Mutex, trans *int64) (res *outcome) {
+	if t.pre != nil {
+		p = t.pre
+	}
 	dir := ev.Scratch("c06")
 	defer os.RemoveAll(dir)
 	cpdir(p.dir, dir+"/d")
@@ -541,6 +614,9 @@ func main() {
 	p := buildPrefix()
 	defer os.RemoveAll(p.dir)
 	ts := templates(p, r.Thorough())
+	rp := buildRetargetPrefix()
+	defer os.RemoveAll(rp.dir)
+	ts = append(ts, retargetTemplate(rp))
 
 	if *replayFile != "" {
 		replay(r, p, templates(p, true), *replayFile)
@@ -594,6 +670,19 @@ func main() {
 		t := t
 		n := len(t.blocks)
 		perms(n, func(a []int) {
+			if t.pre != nil && !r.Thorough() {
+				// quick tier on the 2014-block prefix: only orders that deliver branch A
+				// (the first four blocks) in sequence; branch B arrives in any order
+				last := -1
+				for _, x := range a {
+					if x < 4 {
+						if x < last {
+							return
+						}
+						last = x
+					}
+				}
+			}
 			jobs <- job{t, a}
 			if r.Thorough() || n <= 6 {
 				// one environment event (idle / close+reopen) at every position
